@@ -152,13 +152,16 @@ MODELS = [
     ('figs', Z.Draw, [Z.Draw, Z.Fig, Z.Poly, Z.Tri], [
         M(figs=Q(M(name=S('f')), M(name=S('t'), sides=I(3), kind=S('k'))),
           main=M(name=S('m'), sides=I(4), kind=S('j')))]),
+    # ---- C17: earlier Union attributes whose unused alternative fails
+    ('labels', Z.Labels, [Z.Labels], [
+        M(label=S('txt'), tag2=S('u'), count=I(3), size=I(4), ratio=F(2.5))]),
     # ---- C17: dropping one key makes a value match two sibling classes
     ('ambig', Z.AmbHolder, [Z.AmbHolder, Z.AmbB, Z.AmbS1, Z.AmbS2], [
         M(b=M(a=I(1), x=I(2)), n=I(3), bs=Q(M(a=I(4), y=I(5))))]),
 ]
 CORE = {m[0] for m in MODELS if not m[0].startswith('trap_')
         and m[0] not in ('order', 'typed', 'req4', 'firm', 'extra_default',
-                         'job', 'nest_path', 'nest_enum', 'nest_sav', 'ambig')}
+                         'job', 'nest_path', 'nest_enum', 'nest_sav', 'ambig', 'labels')}
 GROUP_C02 = (CORE - {'perm', 'versioned', 'under_perm'}) | {'order', 'firm', 'extra_default',
                                             'job'}
 GROUP_C08 = CORE | {'order', 'job', 'extra_default'}
